@@ -67,6 +67,11 @@ Decisions == {"admit", "reject", "evict"}
 AfterAdmit(k, c) == Put(tracked, k, c)
 AdmitVictimsOk(k, c, vs) == NoDup(vs) /\ Rng(vs) \subseteq DOMAIN AfterAdmit(k, c)
 
+\* guard only (what the outcome must satisfy), for callers that need it as a state predicate
+AdmitGuard(k, c, d, vs) ==
+  \/ d \in {"admit", "reject"} /\ vs = <<>>
+  \/ d = "evict" /\ AdmitVictimsOk(k, c, vs)
+
 Admit(k, c, d, vs) ==
   \/ /\ d = "admit" /\ vs = <<>>
      /\ tracked' = AfterAdmit(k, c)
@@ -83,11 +88,15 @@ Access(k) == UNCHANGED tracked
 Remove(k) == tracked' = Restrict(tracked, DOMAIN tracked \ {k})
 
 \* ---- evict(n) -> (vs, f) ------------------------------------------------------
-EvictSafe(vs, f) ==
+\* (the ...C forms take the recorded costs as a parameter; PolicyTrace uses them to
+\* describe known deviations of the recorded cost)
+EvictSafeC(rc, vs, f) ==
   /\ NoDup(vs)
   /\ Rng(vs) \subseteq DOMAIN tracked
-  /\ f = SumCost(tracked, Rng(vs))
-EvictEnough(n, f) == Total >= n => f >= n
+  /\ f = SumCost(rc, Rng(vs))
+EvictEnoughC(rc, n, f) == SumCost(rc, DOMAIN tracked) >= n => f >= n
+EvictSafe(vs, f) == EvictSafeC(tracked, vs, f)
+EvictEnough(n, f) == EvictEnoughC(tracked, n, f)
 EvictEff(vs) == tracked' = Restrict(tracked, DOMAIN tracked \ Rng(vs))
 
 Evict(n, vs, f, ev) ==
